@@ -1681,5 +1681,44 @@ theorem seqEnc_perm (c : SeqCfg) (esc goEmpty : Bool) (f : Nat) (key : Str) {val
     simp only [seqEnc, lookup_perm hp hk, hp.length_eq,
       sortBySeq_congr c (unrollEntries_perm c hp) hs]
 
+/-! ### (8) the decoded map has distinct keys and distinct sequence numbers -/
+
+theorem decoded_seqs_nodup (c : SeqCfg) (S : Strconv) (hc : CfgOk c) (sp name : Str)
+    (attrs : List Attr) (kids : List Node) (hd : seqDomain c (.elem sp name attrs kids) = true) :
+    ((unrollEntries c (decodedEntries c S attrs kids)).map (fun e => seqOf c e.2)).Nodup := by
+  rw [((itemsOf_unrolled c S hc sp name attrs kids hd).map _).nodup_iff]
+  unfold itemsOf
+  rw [items_seqs c S hc]
+  exact List.nodup_range'
+
+theorem decoded_keys_nodup (c : SeqCfg) (S : Strconv) (hc : CfgOk c) (sp name : Str)
+    (attrs : List Attr) (kids : List Node) (hd : seqDomain c (.elem sp name attrs kids) = true) :
+    (keys (decodedEntries c S attrs kids)).Nodup := by
+  have dp := seqDomain_parts hd
+  have hkeys := items_keys c S hc kids (if (leadText c kids).isSome then 1 else 0) dp.kids
+  have hG : ∀ k, (k = c.attrK ∨ k = c.textK ∨ k = c.seqK) →
+      k ∉ keys (addAll [] (itemsOf c S kids)) := by
+    intro k hk
+    apply not_mem_keys_of_lookup
+    apply lookup_addAll_none k _ [] rfl
+    intro e he
+    have := hkeys e he
+    rcases hk with rfl | rfl | rfl
+    · exact this.2.2
+    · exact this.1
+    · exact this.2.1
+  rw [decodedEntries_form c S hc sp name attrs kids hd, keys_append', keys_append']
+  have hAT : (keys (if attrs.isEmpty then [] else [(c.attrK, Val.map (attrEntries c 0 attrs))])
+      ++ keys (textEntries c (leadText c kids))).Nodup
+      ∧ ∀ k ∈ (keys (if attrs.isEmpty then [] else [(c.attrK, Val.map (attrEntries c 0 attrs))])
+      ++ keys (textEntries c (leadText c kids))), k = c.attrK ∨ k = c.textK ∨ k = c.seqK := by
+    cases leadText c kids <;> cases attrs <;>
+      simp [textEntries, keys, hc.ta.symm, hc.sa.symm, hc.ts]
+  rw [List.nodup_append]
+  refine ⟨hAT.1, nodup_keys_addAll _ [] (by simp [keys]), ?_⟩
+  intro a ha b hb e
+  subst e
+  exact hG a (hAT.2 a ha) hb
+
 end SeqL
 end Mxj
